@@ -6,6 +6,8 @@ pub mod world;
 pub mod c01;
 pub mod c02;
 pub mod c05;
+pub mod c17;
+pub mod c18;
 
 pub struct Property {
     pub id: &'static str,
@@ -17,4 +19,6 @@ pub const ALL: &[Property] = &[
     Property { id: "C01", run: c01::run, replay: c01::replay },
     Property { id: "C02", run: c02::run, replay: c02::replay },
     Property { id: "C05", run: c05::run, replay: c05::replay },
+    Property { id: "C17", run: c17::run, replay: c17::replay },
+    Property { id: "C18", run: c18::run, replay: c18::replay },
 ];
